@@ -256,6 +256,7 @@ func (m *matrix) judgeRow(i int) {
 						"(%s x y) is t but (%s x y) is nil for x = %s, y = %s", p, preds[pi+1], a.o.Text(), b.o.Text())
 				}
 				x.Cover("chain-checked")
+				x.Cover("chain-checked:" + p + "=>" + preds[pi+1])
 			}
 			// symmetric
 			if i != j {
@@ -265,6 +266,7 @@ func (m *matrix) judgeRow(i int) {
 						"(%s x y) => %v but (%s y x) => %v for x = %s, y = %s", p, o.val, p, back.val, a.o.Text(), b.o.Text())
 				}
 				x.Cover("symmetry-checked")
+				x.Cover("symmetry-checked:" + p)
 			}
 			// transitive through j
 			if o.val && i != j {
@@ -274,6 +276,7 @@ func (m *matrix) judgeRow(i int) {
 					ik := ri[k][pi]
 					if jk.ok() && jk.val && ik.ok() {
 						x.Cover("transitivity-checked")
+						x.Cover("transitivity-checked:" + p)
 						if !ik.val {
 							x.Fail(fmt.Sprintf("rel=transitive pred=%s kinds=%s", p, kindsSig(true, a, b, c)),
 								"(%s x y) and (%s y z) are t but (%s x z) is nil for x = %s, y = %s, z = %s", p, p, p, a.o.Text(), b.o.Text(), c.o.Text())
